@@ -367,3 +367,202 @@ func FieldName(a, b string) string {
 	}
 	return a[j:k]
 }
+
+// ---- row pairing and structural field diff (for specific violation keys) ----
+
+// splitTop splits a rendered struct "&{A:x B:{..} C:[..]}" into its top-level "Name:value" parts.
+func splitTop(s string) []string {
+	s = strings.TrimPrefix(s, "&")
+	if len(s) < 2 || s[0] != '{' || s[len(s)-1] != '}' {
+		return []string{s}
+	}
+	s = s[1 : len(s)-1]
+	var parts []string
+	depth, start, inq := 0, 0, false
+	for i := 0; i < len(s); i++ {
+		c := s[i]
+		if inq {
+			if c == '\\' {
+				i++
+			} else if c == '"' {
+				inq = false
+			}
+			continue
+		}
+		switch c {
+		case '"':
+			inq = true
+		case '{', '[', '(':
+			depth++
+		case '}', ']', ')':
+			depth--
+		case ' ':
+			if depth == 0 {
+				parts = append(parts, s[start:i])
+				start = i + 1
+			}
+		}
+	}
+	if start < len(s) {
+		parts = append(parts, s[start:])
+	}
+	return parts
+}
+
+// TopFields returns the names of the top-level fields whose values differ between two rendered rows.
+func TopFields(a, b string) []string {
+	fa, fb := map[string]string{}, map[string]string{}
+	var order []string
+	for _, p := range splitTop(a) {
+		if i := strings.IndexByte(p, ':'); i > 0 {
+			fa[p[:i]] = p[i+1:]
+			order = append(order, p[:i])
+		}
+	}
+	for _, p := range splitTop(b) {
+		if i := strings.IndexByte(p, ':'); i > 0 {
+			if _, ok := fa[p[:i]]; !ok {
+				order = append(order, p[:i])
+			}
+			fb[p[:i]] = p[i+1:]
+		}
+	}
+	var out []string
+	for _, k := range order {
+		if fa[k] != fb[k] {
+			out = append(out, k)
+		}
+	}
+	return out
+}
+
+func common(a, b string) int {
+	n := 0
+	for n < len(a) && n < len(b) && a[n] == b[n] {
+		n++
+	}
+	return n
+}
+
+type RowDiff struct {
+	Table  string   `json:"table"`
+	Kind   string   `json:"kind"` // changed | missing | extra | order
+	Fields []string `json:"fields,omitempty"`
+	A      string   `json:"a,omitempty"`
+	B      string   `json:"b,omitempty"`
+}
+
+// Key is a specific, stable fingerprint of the difference class: table + kind + differing top-level fields.
+func (d RowDiff) Key() string {
+	if d.Kind == "changed" {
+		return d.Table + ":" + strings.Join(d.Fields, "+")
+	}
+	return d.Table + ":" + d.Kind + "-row"
+}
+
+// RowDiffs pairs the rows that differ between a and b (same table) by greatest common prefix
+// (rows are rendered identity-fields-first) and classifies each as changed / missing in b / extra in b.
+func RowDiffs(a, b *Dump, max int, skip func(table string) bool) []RowDiff {
+	var out []RowDiff
+	for _, d := range Compare(a, b, 1<<30, skip) {
+		_ = d
+	}
+	seen := map[string]bool{}
+	var names []string
+	for _, t := range append(a.TableNames(), b.TableNames()...) {
+		if !seen[t] {
+			seen[t] = true
+			names = append(names, t)
+		}
+	}
+	sort.Strings(names)
+	for _, t := range names {
+		if skip != nil && skip(t) {
+			continue
+		}
+		ra, rb := a.Tables[t], b.Tables[t]
+		cnt := map[string]int{}
+		for _, r := range rb {
+			cnt[r]++
+		}
+		var onlyA, onlyB []string
+		for _, r := range ra {
+			if cnt[r] > 0 {
+				cnt[r]--
+			} else {
+				onlyA = append(onlyA, r)
+			}
+		}
+		cnt = map[string]int{}
+		for _, r := range ra {
+			cnt[r]++
+		}
+		for _, r := range rb {
+			if cnt[r] > 0 {
+				cnt[r]--
+			} else {
+				onlyB = append(onlyB, r)
+			}
+		}
+		if len(onlyA) == 0 && len(onlyB) == 0 {
+			for i := range ra {
+				if ra[i] != rb[i] {
+					out = append(out, RowDiff{Table: t, Kind: "order", A: ra[i], B: rb[i]})
+					break
+				}
+			}
+			continue
+		}
+		usedB := make([]bool, len(onlyB))
+		for _, x := range onlyA {
+			best, bi := -1, -1
+			for j, y := range onlyB {
+				if usedB[j] {
+					continue
+				}
+				if c := common(x, y); c > best {
+					best, bi = c, j
+				}
+			}
+			// same identity = the first top-level field(s) agree: require the common prefix to cover
+			// at least the first field of x
+			first := splitTop(x)
+			need := 3
+			if len(first) > 0 {
+				need = len(first[0]) + 2
+			}
+			if bi >= 0 && best >= need {
+				usedB[bi] = true
+				out = append(out, RowDiff{Table: t, Kind: "changed", Fields: TopFields(x, onlyB[bi]), A: x, B: onlyB[bi]})
+			} else {
+				out = append(out, RowDiff{Table: t, Kind: "missing", A: x})
+			}
+			if len(out) >= max {
+				return out
+			}
+		}
+		for j, y := range onlyB {
+			if !usedB[j] {
+				out = append(out, RowDiff{Table: t, Kind: "extra", B: y})
+				if len(out) >= max {
+					return out
+				}
+			}
+		}
+	}
+	return out
+}
+
+// Fold returns a copy of the dump with every row lower-cased (used to tell case-variant-name
+// differences from real ones).
+func (d *Dump) Fold() *Dump {
+	n := &Dump{Tables: map[string][]string{}}
+	for t, rows := range d.Tables {
+		out := make([]string, len(rows))
+		for i, r := range rows {
+			out[i] = strings.ToLower(r)
+		}
+		n.Tables[t] = out
+	}
+	return n
+}
